@@ -687,6 +687,11 @@ def c20 (op : String) (args : List Sexp) : Verdict :=
     | some c => c20Verdict c v impl
     | none => .bad "parse"
   | "c20-known", [_, _, _, _, v, _, impl] => c20KnownVerdict v impl
+  | "c20x", [.atom name, impl] =>
+    match impl with
+    | .list [.atom "ok"] => .ok s!"scenario/{name}"
+    | .list (.atom "violated" :: why) => .oracle s!"{name}: {why}"
+    | other => .oracle s!"{name}: {other}"
   | "crashed-case", _ => .oracle "the harness process died while running this case (fatal error in the library)"
   | _, _ => .bad s!"unknown op {op}"
 
